@@ -139,8 +139,8 @@ def complex_readers(F):
             ins = [_norm_ty(x) for x in s["inputs"]]
             if not any("roxmltree::Node<" in x for x in ins):
                 continue
-            if any(x == "&mutstd::vec::Vec<model::field::Field>" for x in ins):
-                appenders.append(p)
+            if any(x == "&mutstd::vec::Vec<model::field::Field>" for x in ins) or "Vec<model::field::Field>" in _norm_ty(s["output"]):
+                appenders.append(p)     # fills a field list handed to it, or returns one
             elif "ComplexProps" in _norm_ty(s["output"]):
                 readers.append(p)
         roles = {entry: "complexType"}
